@@ -12,6 +12,11 @@ CLAIMS = {
             "against the same actions, with the stream content recomputed by TLC from the offset function.",
             "Trusted: TLC, the proxy/driver harness/tlsdrv.c, reference X.509 writer. Scheduling of the two endpoint threads is explored only as far as the OS and the fragmenting proxy produce it.",
             "4/C08"),
+    "C03": ("model_checking",
+            "TLC model checking of Stream.tla (md buffer machine, all chunkings) + behaviour generation + trace validation against CryptoTrace.tla where TLC recomputes every construction from Crypto.tla over compression-function tables",
+            "TLC explores every chunking of the partial-block buffer machine on a small block and generates the transition-covering chunkings; each real execution (6 hash algorithms, HMAC, PBKDF2, HKDF, SM3/SM2 KDF, every API path) is validated by TLC recomputing padding, length encoding, chaining, ipad/opad, F, expand and counter rules from the TLA+ definitions -- only the compression function values come from reference tables.",
+            "Trusted: TLC; compression functions of ref/sm3ref.py and ref/sharef.py (self-tested against standard vectors). SHA-512/224 and /256 are outside the property. Messages above 2^32 bits only in the thorough tier.",
+            "4/C03"),
     "C09": ("model_checking",
             "TLC model checking of Tls.tla over all credential-fact combinations (+ negative configs) + trace validation of live handshakes with defective credentials",
             "TLC proves on the model that a verifier completes only for a valid chain and proven key possession (64 credential combinations x 3 protocols x auth modes, and that removing either check is caught); "
